@@ -74,7 +74,11 @@ func (r *Result) Sample(s interface{}) {
 func (r *Result) Note(format string, a ...interface{}) {
 	r.mu.Lock()
 	if len(r.Notes) < 50 {
-		r.Notes = append(r.Notes, fmt.Sprintf(format, a...))
+		n := fmt.Sprintf(format, a...)
+		if len(n) > 400 {
+			n = n[:400] + "…"
+		}
+		r.Notes = append(r.Notes, n)
 	}
 	r.mu.Unlock()
 }
